@@ -6,6 +6,28 @@ props = [json.loads(l) for l in open(os.path.join(ROOT, "properties.jsonl"))]
 
 # id -> (full/partial note, technique, level text)
 CLAIMED = {
+
+ "C01": ("partial: the reference semantics (MiniAldor: typed AST, fuelled evaluator, renderer) is proved well defined (fuel monotonicity, determinism, layout-independent rendering, overload uniqueness; argument-order irrelevance and type soundness for named fragments); the compiler pipeline itself is not modelled: 'compiled output = eval' is decided by correspondence on generated programs through both routes.",
+         "Lean 4 reference evaluator with well-definedness theorems + end-to-end correspondence on generated programs (interpreter and C routes)",
+         "The expected output of each generated program is computed by a Lean evaluator whose well-definedness is proved; every run compiles the programs with the rebuilt compiler through -Ginterp and the C back end and compares stdout and exit class; disagreements are shrunk on the AST."),
+ "C04": ("full for integer/boolean/character builtins (per builtin and per evaluator a regenerated theorem against a hand-written reference, plus Int-level characterisations), agreement-only for float and big-integer builtins (same function of uninterpreted primitives under stated primitive laws); libc-bound Format*/Scan* builtins by correspondence only.",
+         "translator (clang AST of of_cfold.c, fint.c, genc.c table, foam_c.*) regenerating Lean definitions + generated Lean theorems + self-check of the translator against the real folder/interpreter/C runtime on the boundary product",
+         "Every run regenerates Lean definitions of the three evaluators from the current C sources and re-proves 671 theorems against a hand-written reference; the translator's reading of C is validated by executing the real folder, interpreter and C runtime on the boundary product."),
+ "C05": ("partial: the FOAM byte codec (foamToBuffer/foamFrBuffer/foamTagFormat/foamSIntReduce, table regenerated from foam.c) is modelled and proved (decode∘encode = norm for every well-formed tree, re-save idempotent, reduced integers denote the same value, IEEE floats via the C19 model); symbol/type sections, .fm text and archives are covered end-to-end only (source vs .ao vs .fm routes).",
+         "Lean 4 proof over hand model + regenerated foamInfoTable + differential correspondence (synthetic and real units) + end-to-end saved-form comparison",
+         "Lean round-trip theorems parameterised by the regenerated format table (side condition re-decided each run); the model is run against foam.c on synthetic trees and on the FOAM of real programs; C/FOAM generated from source, .ao and .fm are compared."),
+ "C06": ("partial: a typed core language with a declarative judgement, an executable checker proved sound and complete for it, and a mutation catalogue whose every mutant is PROVED ill-typed at the planted site; the decision 'no outputs after errors' is modelled and proved. The real type checker (tinfer/tfsat) is not modelled: acceptance of the family and rejection of every mutant at the right position are checked end-to-end.",
+         "Lean 4 proof (mutants ill-typed at the planted site) + end-to-end accept/reject search with position and left-over-output checks",
+         "Generated well-typed programs and all their single-fault mutants are compiled with the rebuilt compiler: originals must be accepted, mutants rejected with an error inside the mutated construct's span, non-zero exit and no object/code file left."),
+ "C08": ("partial (weakest proof content): iteration order of the hash table model depends only on hash values and history; string hash is a function of the bytes; the sort used when writing symbol meanings is permutation-invariant on distinct keys; every pointer-keyed table in the regenerated list is not iterated or is in a reviewed allow-list. ASLR, collector timing, environment and batching are runtime facts examined by repeated-run search only.",
+         "translator (clang AST: pointer-keyed tables and their iterations) + Lean 4 lemmas + repeated-run / ASLR / forced-GC / batched differential search",
+         "A regenerated list of address-keyed tables must be covered by a reviewed allow-list (Lean decide); outputs of ~20 units are byte-compared across runs, ASLR on/off, forced collections (hook), environments and batched invocation."),
+ "C10": ("partial: allocator bookkeeping (sections, fixed-size free lists, mixed pieces with split/merge/best fit, resize, recode, sweep) modelled and proved: invariant for every history, alignment, size, disjointness, free/resize/sweep effects; OS page layer is an input, stack scanning and byte contents are not modelled (contents checked on the implementation by the byte-pattern oracle).",
+         "Lean 4 invariant proof by induction over operation histories + differential correspondence with recorded page grants + property oracle on the implementation's output",
+         "Lean invariant theorems over allocator histories; store.c is driven with the same histories (offsets/sizes compared with the model) and its answers are checked for alignment, size, disjointness, audit and preserved contents."),
+ "C13": ("partial: an abstract session model (a rejected form is a no-op; loop transcript = batch transcript; any interleaving of rejected forms leaves accepted outputs unchanged) and a model of scanIsContinued proved to cut well-laid-out input into exactly its forms; the undo machinery (scoSetUndoState), incremental symbol tables and fintWrap are tied end-to-end only (-Gloop vs -Ginterp).",
+         "Lean 4 proof over session model and line-continuation model + differential correspondence (scanIsContinued) + end-to-end loop-vs-batch search with erroneous forms interleaved",
+         "scanIsContinued is run against its model on ~146k inputs; template and generated programs are fed form by form to -Gloop, with erroneous forms interleaved, and compared with -Ginterp."),
  "C14": ("partial: the lineariser (linear.c) is modelled and proved layout-invariant (blank/comment lines, column independence outside piles, monotone re-indentation inside piles, pile=braces on a block language by bounded kernel check); scanner and parser are tied end-to-end only (-WTr+li token lists and -Fap trees across layout variants).",
          "Lean 4 proof over hand model of linear.c + differential correspondence + end-to-end layout-variant search",
          "Lean theorems about a statement-by-statement model of linear.c; the model is run against the real lineariser on scanned layout variants every run, and the compiler's own token list / parse tree is compared across variants."),
